@@ -2,8 +2,11 @@
    (property C06).  Every Less method has the same shape: compare the Kind()
    numbers; for equal kinds use the comparison of that kind.  The kind of a
    value is the Go type the evaluator represents it with, which the canonical
-   form determines (C02).  [None] = a kind whose comparison is not modelled
-   (Dict, Relation, UnionSet): covered by the implementation-side oracle only. *)
+   form determines (C02).  Every kind is modelled.  The result is three-valued: [ROk c], [RPanic]
+   (a type assertion or explicit panic of the Go code: reachable only through
+   hand-written nested @neg tuples, whose Kind() number collides with another
+   type's, and through ill-typed sugar tuples, which the Go constructors reject),
+   [RFuel] (the fuel of the model ran out; never for fuel > 2 * depth + 2). *)
 From Arrai Require Import Base.Val Spec.SetAlg Eval.Interp.
 
 Inductive rkind :=
@@ -25,6 +28,7 @@ Definition member_bucket (m : val) : bucket :=
         else if name_eqb n2 n_value then BEntry
         else BRel [n1; n2]
       else BRel [n1; n2]
+  | VTup [] => BGeneric           (* GenericTuple.getBucket: the empty tuple files with the non-tuples *)
   | VTup l => BRel (map fst l)
   | _ => BGeneric
   end.
@@ -63,10 +67,12 @@ Fixpoint kind_of (v : val) : rkind :=
       else KUnion
   end.
 
-(* the Kind() numbers, regenerated from the running code into Gen/Kinds.v and
-   passed in here *)
-Section WithKinds.
-Variable knum : rkind -> Z.
+(* ---------- outcomes ---------- *)
+
+Inductive rres (A : Type) := ROk (x : A) | RPanic | RFuel.
+Arguments ROk {A} x.
+Arguments RPanic {A}.
+Arguments RFuel {A}.
 
 (* sequences as (offset, cells) with None for holes *)
 Fixpoint cells_from (i : Z) (n : nat) (ps : list (Z * val)) : list (option val) :=
@@ -83,112 +89,293 @@ Definition seq_shape (ps : list (Z * val)) : Z * list (option val) :=
               (lo, cells_from lo (Z.to_nat (hi - lo + 1)) ps)
   end.
 
-Definition ocomb (c : comparison) (k : option comparison) : option comparison :=
-  match c with Eq => k | _ => Some c end.
-Definition obind (c : option comparison) (k : option comparison) : option comparison :=
-  match c with Some Eq => k | other => other end.
+Definition ocomb (c : comparison) (k : rres comparison) : rres comparison :=
+  match c with Eq => k | _ => ROk c end.
+Definition obind (c : rres comparison) (k : rres comparison) : rres comparison :=
+  match c with ROk Eq => k | other => other end.
 
-(* insertion sort by a comparison that may be undefined *)
-Fixpoint oinsert (cmp : val -> val -> option comparison) (x : val) (l : list val) : option (list val) :=
+Section Combinators.
+Variable cmp : val -> val -> rres comparison.
+
+(* insertion sort by a comparison that may be undefined; stands for sort.Slice /
+   frozen's OrderedElements with the same less function (no member is dropped) *)
+Fixpoint oinsert (x : val) (l : list val) : rres (list val) :=
   match l with
-  | [] => Some [x]
+  | [] => ROk [x]
   | y :: l' => match cmp x y with
-               | Some Gt => match oinsert cmp x l' with Some r => Some (y :: r) | None => None end
-               | Some _ => Some (x :: l)
-               | None => None
+               | ROk Gt => match oinsert x l' with ROk r => ROk (y :: r) | RPanic => RPanic | RFuel => RFuel end
+               | ROk _ => ROk (x :: l)
+               | RPanic => RPanic
+               | RFuel => RFuel
                end
   end.
-Fixpoint osort (cmp : val -> val -> option comparison) (l : list val) : option (list val) :=
+Fixpoint osort (l : list val) : rres (list val) :=
   match l with
-  | [] => Some []
-  | x :: l' => match osort cmp l' with Some r => oinsert cmp x r | None => None end
+  | [] => ROk []
+  | x :: l' => match osort l' with ROk r => oinsert x r | RPanic => RPanic | RFuel => RFuel end
   end.
 
-Fixpoint olex (cmp : val -> val -> option comparison) (a b : list val) : option comparison :=
+(* element-wise, then the shorter one first *)
+Fixpoint olex (a b : list val) : rres comparison :=
   match a, b with
-  | [], [] => Some Eq
-  | [], _ => Some Lt
-  | _, [] => Some Gt
-  | x :: a', y :: b' => obind (cmp x y) (olex cmp a' b')
+  | [], [] => ROk Eq
+  | [], _ => ROk Lt
+  | _, [] => ROk Gt
+  | x :: a', y :: b' => obind (cmp x y) (olex a' b')
   end.
 
 (* Array.Less on cells: a position where only b has a hole decides a < b,
    where only a has a hole decides b < a, two holes are skipped *)
-Fixpoint ocells (cmp : val -> val -> option comparison) (a b : list (option val)) : option comparison :=
+Fixpoint ocells (a b : list (option val)) : rres comparison :=
   match a, b with
-  | [], [] => Some Eq
-  | [], _ => Some Lt
-  | _, [] => Some Gt
+  | [], [] => ROk Eq
+  | [], _ => ROk Lt
+  | _, [] => ROk Gt
   | x :: a', y :: b' =>
       match x, y with
-      | None, None => ocells cmp a' b'
-      | Some _, None => Some Lt
-      | None, Some _ => Some Gt
-      | Some u, Some v => obind (cmp u v) (ocells cmp a' b')
+      | None, None => ocells a' b'
+      | Some _, None => ROk Lt
+      | None, Some _ => ROk Gt
+      | Some u, Some v => obind (cmp u v) (ocells a' b')
       end
   end.
+
+(* GenericTuple.Less (and the four sugar tuple types, whose two fields are
+   compared in the same name order): names in sorted order; the first differing
+   name decides, else the values; then the shorter one first *)
+Fixpoint otup (la lb : list (name * val)) : rres comparison :=
+  match la, lb with
+  | [], [] => ROk Eq
+  | [], _ => ROk Lt
+  | _, [] => ROk Gt
+  | (n1, v1) :: la', (n2, v2) :: lb' =>
+      match name_cmp n1 n2 with
+      | Eq => obind (cmp v1 v2) (otup la' lb')
+      | c => ROk c
+      end
+  end.
+End Combinators.
 
 Definition hole_val : val := vint (-1).
 Definition cell_or_hole (c : option val) : val := match c with Some v => v | None => hole_val end.
 
-Fixpoint rcmp (fuel : nat) (a b : val) : option comparison :=
-  match fuel with
-  | O => None
-  | S f =>
-    let ka := kind_of a in
-    let kb := kind_of b in
-    match Z.compare (knum ka) (knum kb) with
-    | Eq =>
-      match ka, a, b with
-      | KNum, VNum x, VNum y => Some (num_cmp x y)
-      | KEmpty, _, _ | KTrue, _, _ => Some Eq
-      | KNeg _, VTup [(_, x)], VTup [(_, y)] => rcmp f y x
-      | (KTupG | KTupChar | KTupByte | KTupItem | KTupEntry), VTup la, VTup lb =>
-          (* names in sorted order; first differing name decides, else the values *)
-          (fix go (la lb : list (name * val)) : option comparison :=
-             match la, lb with
-             | [], [] => Some Eq
-             | [], _ => Some Lt
-             | _, [] => Some Gt
-             | (n1, v1) :: la', (n2, v2) :: lb' =>
-                 match name_cmp n1 n2 with
-                 | Eq => obind (rcmp f v1 v2) (go la' lb')
-                 | c => Some c
-                 end
-             end) la lb
-      | KStr, VSet la, VSet lb =>
-          match seq_members n_char la, seq_members n_char lb with
-          | Some pa, Some pb =>
-              let (oa, ca) := seq_shape pa in let (ob, cb) := seq_shape pb in
-              ocomb (Z.compare oa ob) (olex (rcmp f) (map cell_or_hole ca) (map cell_or_hole cb))
-          | _, _ => None
+(* ---------- Dict.Less ---------- *)
+
+(* the entries (@: k, @value: v) of a dict as (k, v) *)
+Definition entry_of (m : val) : option (val * val) :=
+  match m with VTup [(_, k); (_, v)] => Some (k, v) | _ => None end.
+Fixpoint dict_entries (l : list val) : option (list (val * val)) :=
+  match l with
+  | [] => Some []
+  | m :: l' => match entry_of m, dict_entries l' with
+               | Some e, Some r => Some (e :: r)
+               | _, _ => None
+               end
+  end.
+(* the keys of the underlying map, each once (frozen.Map keyed by Equal) *)
+Fixpoint dict_keys (es : list (val * val)) : list val :=
+  match es with
+  | [] => []
+  | (k, _) :: es' => if existsb (fun e => veqb (fst e) k) es' then dict_keys es' else k :: dict_keys es'
+  end.
+(* the value, or the several values, stored under a key *)
+Definition dict_vals (es : list (val * val)) (k : val) : list val :=
+  map snd (filter (fun e => veqb (fst e) k) es).
+
+(* the loop over the sorted keys: a different key decides; under equal keys the
+   sorted value lists are compared element-wise, then by length; then the
+   number of keys.  Value lists are sorted only when the loop reaches them. *)
+Fixpoint ogroups (cmp : val -> val -> rres comparison) (ea eb : list (val * val)) (ka kb : list val)
+  : rres comparison :=
+  match ka, kb with
+  | [], [] => ROk Eq
+  | [], _ => ROk Lt
+  | _, [] => ROk Gt
+  | k1 :: ka', k2 :: kb' =>
+      obind (cmp k1 k2)
+        (match osort cmp (dict_vals ea k1) with
+         | ROk v1 =>
+             match osort cmp (dict_vals eb k2) with
+             | ROk v2 => obind (olex cmp v1 v2) (ogroups cmp ea eb ka' kb')
+             | RPanic => RPanic | RFuel => RFuel
+             end
+         | RPanic => RPanic | RFuel => RFuel
+         end)
+  end.
+
+Definition odict (cmp : val -> val -> rres comparison) (la lb : list val) : rres comparison :=
+  match dict_entries la, dict_entries lb with
+  | Some ea, Some eb =>
+      match osort cmp (dict_keys ea) with
+      | ROk ka =>
+          match osort cmp (dict_keys eb) with
+          | ROk kb => ogroups cmp ea eb ka kb
+          | RPanic => RPanic | RFuel => RFuel
           end
-      | KBytes, VSet la, VSet lb =>
-          match seq_members n_byte la, seq_members n_byte lb with
-          | Some pa, Some pb =>
-              let (oa, ca) := seq_shape pa in let (ob, cb) := seq_shape pb in
-              ocomb (Z.compare oa ob) (olex (rcmp f) (map cell_or_hole ca) (map cell_or_hole cb))
-          | _, _ => None
-          end
-      | KArr, VSet la, VSet lb =>
-          match seq_members n_item la, seq_members n_item lb with
-          | Some pa, Some pb =>
-              let (oa, ca) := seq_shape pa in let (ob, cb) := seq_shape pb in
-              ocomb (Z.compare oa ob) (ocells (rcmp f) ca cb)
-          | _, _ => None
-          end
-      | KGeneric, VSet la, VSet lb =>
-          match osort (rcmp f) la, osort (rcmp f) lb with
-          | Some sa, Some sb => olex (rcmp f) sa sb
-          | _, _ => None
-          end
-      | _, _, _ => None
+      | RPanic => RPanic | RFuel => RFuel
       end
-    | c => Some c
+  | _, _ => RPanic
+  end.
+
+(* ---------- Relation.Less ---------- *)
+
+(* heading (attribute names in name order) and the column values of a row in that order *)
+Definition rel_names (l : list val) : list name :=
+  match l with VTup r :: _ => map fst r | _ => [] end.
+Definition row_vals (m : val) : list val :=
+  match m with VTup r => map snd r | _ => [] end.
+(* NamesSlice.EqualNamesSlice / LessNamesSlice: number of names, then the sorted names *)
+Fixpoint names_lex (a b : list name) : comparison :=
+  match a, b with
+  | [], [] => Eq
+  | [], _ => Lt
+  | _, [] => Gt
+  | x :: a', y :: b' => match name_cmp x y with Eq => names_lex a' b' | c => c end
+  end.
+Definition names_cmp (a b : list name) : comparison :=
+  match Nat.compare (length a) (length b) with Eq => names_lex a b | c => c end.
+
+(* heading; Count(); then the rows - ordered column by column in name order
+   (positionalRelation.OrderedRange over projectedValues.Less) - compared
+   pairwise as tuples (GenericTuple.Less) *)
+Definition orel (cmp : val -> val -> rres comparison) (la lb : list val) : rres comparison :=
+  ocomb (names_cmp (rel_names la) (rel_names lb))
+    (ocomb (Nat.compare (length la) (length lb))
+       (let rowless := fun x y => olex cmp (row_vals x) (row_vals y) in
+        match osort rowless la with
+        | ROk ra =>
+            match osort rowless lb with
+            | ROk rb => olex cmp ra rb
+            | RPanic => RPanic | RFuel => RFuel
+            end
+        | RPanic => RPanic | RFuel => RFuel
+        end)).
+
+(* ---------- UnionSet.Less ---------- *)
+
+(* the buckets of a union set, each a set of one representation *)
+Fixpoint bucket_list (l : list val) : list bucket :=
+  match l with
+  | [] => []
+  | m :: l' => let b := member_bucket m in
+               if existsb (fun x => bucket_eqb (member_bucket x) b) l' then bucket_list l' else b :: bucket_list l'
+  end.
+Definition union_buckets (l : list val) : list val :=
+  map (fun b => VSet (filter (fun m => bucket_eqb (member_bucket m) b) l)) (bucket_list l).
+
+(* orderedSubsets (sort.Slice by Less), then bucket by bucket, then the number of buckets *)
+Definition ounion (cmp : val -> val -> rres comparison) (la lb : list val) : rres comparison :=
+  match osort cmp (union_buckets la) with
+  | ROk sa =>
+      match osort cmp (union_buckets lb) with
+      | ROk sb => olex cmp sa sb
+      | RPanic => RPanic | RFuel => RFuel
+      end
+  | RPanic => RPanic | RFuel => RFuel
+  end.
+
+(* ---------- sequences ---------- *)
+
+Definition oseq (n : name) (cells : list (option val) -> list (option val) -> rres comparison)
+  (la lb : list val) : rres comparison :=
+  match seq_members n la, seq_members n lb with
+  | Some pa, Some pb =>
+      let (oa, ca) := seq_shape pa in let (ob, cb) := seq_shape pb in
+      ocomb (Z.compare oa ob) (cells ca cb)
+  | _, _ => RPanic
+  end.
+
+(* ---------- one Less method: the receiver has kind ka, the Kind() numbers are equal ---------- *)
+
+Definition same_kind (cmp : val -> val -> rres comparison) (ka : rkind) (a b : val) : rres comparison :=
+  match ka, a, b with
+  | KNum, VNum x, VNum y => ROk (num_cmp x y)                        (* n < v.(Number) *)
+  | KEmpty, _, _ | KTrue, _, _ => ROk Eq                            (* e.Kind() < v.Kind(): false both ways *)
+  | KNeg _, VTup [(_, x)], VTup [(n2, y)] =>                        (* y.Less(x); panics unless v is a one-attribute @neg tuple *)
+      if name_eqb n2 n_neg then cmp y x else RPanic
+  | KTupG, VTup la, VTup lb =>                                      (* v.( *GenericTuple) *)
+      match member_bucket b with
+      | BChar | BByte | BItem | BEntry => RPanic
+      | _ => otup cmp la lb
+      end
+  | (KTupChar | KTupByte | KTupItem | KTupEntry), VTup la, VTup lb => (* v.(StringCharTuple) ... *)
+      if bucket_eqb (member_bucket a) (member_bucket b) then otup cmp la lb else RPanic
+  | KStr, VSet la, VSet lb =>
+      oseq n_char (fun ca cb => olex cmp (map cell_or_hole ca) (map cell_or_hole cb)) la lb
+  | KBytes, VSet la, VSet lb =>
+      oseq n_byte (fun ca cb => olex cmp (map cell_or_hole ca) (map cell_or_hole cb)) la lb
+  | KArr, VSet la, VSet lb => oseq n_item (ocells cmp) la lb
+  | KGeneric, VSet la, VSet lb =>
+      match osort cmp la with
+      | ROk sa =>
+          match osort cmp lb with
+          | ROk sb => olex cmp sa sb
+          | RPanic => RPanic | RFuel => RFuel
+          end
+      | RPanic => RPanic | RFuel => RFuel
+      end
+  | KDict, VSet la, VSet lb => odict cmp la lb
+  | KRel, VSet la, VSet lb => orel cmp la lb
+  | KUnion, VSet la, VSet lb => ounion cmp la lb
+  | _, _, _ => RPanic                                               (* v.(T) on a value of another Go type *)
+  end.
+
+(* the Kind() numbers, regenerated from the running code into Gen/Kinds.v and
+   passed in here *)
+Section WithKinds.
+Variable knum : rkind -> Z.
+
+Fixpoint rcmp (fuel : nat) (a b : val) : rres comparison :=
+  match fuel with
+  | O => RFuel
+  | S f =>
+    match Z.compare (knum (kind_of a)) (knum (kind_of b)) with
+    | Eq => same_kind (rcmp f) (kind_of a) a b
+    | c => ROk c
     end
   end.
 
-Definition rless (fuel : nat) (a b : val) : option bool :=
-  match rcmp fuel a b with Some Lt => Some true | Some _ => Some false | None => None end.
+Definition rless (fuel : nat) (a b : val) : rres bool :=
+  match rcmp fuel a b with ROk Lt => ROk true | ROk _ => ROk false | RPanic => RPanic | RFuel => RFuel end.
 
 End WithKinds.
+
+(* ---------- the values the Go representations can hold ---------- *)
+
+(* sugar tuples (@, @char | @byte | @item) must fit the specialised Go types
+   (NewTuple asserts Number and truncates otherwise) *)
+Definition sugar_ok (l : list (name * val)) : bool :=
+  match l with
+  | [(n1, k); (n2, x)] =>
+      if name_eqb n1 n_at then
+        if name_eqb n2 n_char then (match k with VNum (NInt _) => true | _ => false end) && valid_char x
+        else if name_eqb n2 n_byte then (match k with VNum (NInt _) => true | _ => false end) && valid_byte x
+        else if name_eqb n2 n_item then (match k with VNum (NInt _) => true | _ => false end)
+        else true
+      else true
+  | _ => true
+  end.
+(* Negate() never nests: (@neg: (@neg: x)) can only be written by hand, and its
+   Kind() is the kind of x (open finding KF-C06-01) *)
+Definition neg_ok (l : list (name * val)) : bool :=
+  match l with
+  | [(n, VTup [(n', _)])] => negb (name_eqb n n_neg && name_eqb n' n_neg)
+  | _ => true
+  end.
+(* the (index, item) pairs of the sequence members named n, and no two of them at one index
+   (superimposed sequence items have no representation: open finding of C01) *)
+Definition seq_pairs (n : name) (l : list val) : list (Z * val) :=
+  flat_map (fun m => match m with
+                     | VTup [(n1, VNum (NInt i)); (n2, x)] =>
+                         if name_eqb n1 n_at && name_eqb n2 n then [(i, x)] else []
+                     | _ => []
+                     end) l.
+Definition seq_distinct (l : list val) : bool :=
+  distinct_keys (seq_pairs n_char l) && distinct_keys (seq_pairs n_byte l) && distinct_keys (seq_pairs n_item l).
+
+Fixpoint go_ok (v : val) : bool :=
+  match v with
+  | VNum _ => true
+  | VTup l => sugar_ok l && neg_ok l && forallb (fun p => go_ok (snd p)) l
+  | VSet l => seq_distinct l && forallb go_ok l
+  end.
